@@ -10,8 +10,19 @@ cd $W
 git apply /tmp/seed-out/$ID/patch.diff || { echo "PATCH DOES NOT APPLY"; exit 3; }
 echo "== build"; go build ./... || { echo "BUILD FAILS"; exit 3; }
 echo "== full test suite with the change"
-go test -vet=off -count=1 ./... 2>&1 | grep -v "^ok\|no test files" | head -20
-SUITE=${PIPESTATUS[0]}
+go test -vet=off -count=1 ./... > /tmp/sv-$ID.suite 2>&1
+SUITE=$?
+if [ $SUITE -ne 0 ]; then
+  # cmd/pint uses fixed ports: retry failing packages (other jobs on this machine run the same suite)
+  for try in 1 2 3; do
+    PKGS=$(grep '^FAIL\s' /tmp/sv-$ID.suite | awk '{print $2}' | sort -u)
+    [ -z "$PKGS" ] && break
+    echo "retrying: $PKGS"; sleep $((RANDOM % 20))
+    go test -vet=off -count=1 $PKGS > /tmp/sv-$ID.suite 2>&1; SUITE=$?
+    [ $SUITE -eq 0 ] && break
+  done
+  grep -v "^ok" /tmp/sv-$ID.suite | tail -15
+fi
 echo "suite exit=$SUITE"
 # demo files = untracked files in the agent's worktree
 (cd /tmp/seed/$ID && git status --short | grep '^??' | awk '{print $2}') > /tmp/sv-$ID.files
